@@ -4,6 +4,7 @@ import inspect
 import itertools
 import sys
 import textwrap
+import threading
 import typing
 from collections import OrderedDict, defaultdict
 from dataclasses import dataclass, field, replace
@@ -21,6 +22,10 @@ from .types import clsstring, normalize_type
 from .utils import MISSING, UsageError, keyword_decorator, subtler_type
 
 _current_id = itertools.count()
+
+# Serializes (re)builds of the dispatch tables: the first calls of several
+# threads must not build the same Ovld at the same time.
+_build_lock = threading.RLock()
 
 
 @keyword_decorator
@@ -109,7 +114,7 @@ class LazySignature(inspect.Signature):
 
 def bootstrap_dispatch(ov, name):
     def first_entry(*args, **kwargs):
-        ov.compile()
+        ov.ensure_compiled()
         return ov.dispatch(*args, **kwargs)
 
     dispatch = FunctionType(
@@ -119,6 +124,7 @@ def bootstrap_dispatch(ov, name):
         (),
         first_entry.__closure__,
     )
+    dispatch._bootstrap_code = dispatch.__code__
     dispatch.__signature__ = LazySignature(ov)
     dispatch.__ovld__ = ov
     dispatch.register = ov.register
@@ -470,9 +476,17 @@ class Ovld:
             self.__module__ = fn.__module__
             self.rename(f"{fn.__module__}.{fn.__qualname__}", fn.__name__)
 
+    def _is_built(self):
+        return (
+            self._compiled
+            and self.dispatch.__code__ is not self.dispatch._bootstrap_code
+        )
+
     def ensure_compiled(self):
-        if not self._compiled:
-            self.compile()
+        if not self._is_built():
+            with _build_lock:
+                if not self._is_built():
+                    self.compile()
 
     def compile(self):
         """Finalize this overload.
@@ -484,32 +498,44 @@ class Ovld:
         This will also lock this ovld's parent mixins to prevent their
         modification.
         """
-        for mixin in self.mixins:
-            if self not in mixin.children:
-                mixin.lock()
+        with _build_lock:
+            for mixin in self.mixins:
+                if self not in mixin.children:
+                    mixin.lock()
 
-        if self.name is None:
-            self.name = self.__name__ = f"ovld{self.id}"
+            if self.name is None:
+                self.name = self.__name__ = f"ovld{self.id}"
 
-        name = self.__name__
-        self.map = MultiTypeMap(name=name, key_error=self._key_error)
+            name = self.__name__
+            if not hasattr(self, "dispatch"):
+                self.dispatch = bootstrap_dispatch(self, name=self.shortname)
 
-        self.analyze_arguments()
-        dispatch = generate_dispatch(self, self.argument_analysis)
-        if not hasattr(self, "dispatch"):
-            self.dispatch = bootstrap_dispatch(self, name=self.shortname)
-        self.dispatch.__code__ = rename_code(dispatch.__code__, self.shortname)
-        self.dispatch.__kwdefaults__ = dispatch.__kwdefaults__
-        self.dispatch.__annotations__ = dispatch.__annotations__
-        self.dispatch.__defaults__ = dispatch.__defaults__
-        self.dispatch.__globals__.update(dispatch.__globals__)
-        self.dispatch.map = self.map
-        self.dispatch.__doc__ = self.mkdoc()
+            # Until the build is complete, calls go through the bootstrap
+            # entry point, which builds again. That way a build that fails
+            # or is interrupted half-way never leaves a partially filled
+            # table in service.
+            self.dispatch.__code__ = self.dispatch._bootstrap_code
+            self._compiled = False
+            self.map = MultiTypeMap(name=name, key_error=self._key_error)
 
-        for key, fn in list(self.defns.items()):
-            self.register_signature(key, fn)
+            self.analyze_arguments()
+            dispatch = generate_dispatch(self, self.argument_analysis)
 
-        self._compiled = True
+            for key, fn in list(self.defns.items()):
+                self.register_signature(key, fn)
+
+            self.dispatch.__kwdefaults__ = dispatch.__kwdefaults__
+            self.dispatch.__annotations__ = dispatch.__annotations__
+            self.dispatch.__defaults__ = dispatch.__defaults__
+            self.dispatch.__globals__.update(dispatch.__globals__)
+            self.dispatch.map = self.map
+            self.dispatch.__doc__ = self.mkdoc()
+
+            # The generated entry point is swapped in last
+            self._compiled = True
+            self.dispatch.__code__ = rename_code(
+                dispatch.__code__, self.shortname
+            )
 
     def resolve(self, *args):
         """Find the correct method to call for the given arguments."""
@@ -599,8 +625,7 @@ class Ovld:
             return ov
 
     def __get__(self, obj, cls):
-        if not self._compiled:
-            self.compile()
+        self.ensure_compiled()
         return self.dispatch.__get__(obj, cls)
 
     @_setattrs(rename="dispatch")
@@ -609,8 +634,7 @@ class Ovld:
 
         This should be replaced by an auto-generated function.
         """
-        if not self._compiled:
-            self.compile()
+        self.ensure_compiled()
         return self.dispatch(*args, **kwargs)
 
     @_setattrs(rename="next")
